@@ -1015,6 +1015,9 @@ def parse_tree_to_objgraph(
                 # (remove all of them, not only the model with errors,
                 # since, models with errors may be included in other models)
                 remove_models_from_repositories(models, models)
+                for m in models:
+                    if m is not model:
+                        _abort_model_construction(m)
                 raise
 
         if metamodel.textx_tools_support and type(model) not in PRIMITIVE_PYTHON_TYPES:
@@ -1109,6 +1112,22 @@ def _remove_all_affected_models_in_construction(model):
         filter(lambda x: hasattr(x, "_tx_reference_resolver"), all_affected_models)
     )
     remove_models_from_repositories(all_affected_models, models_to_be_removed)
+    for m in models_to_be_removed:
+        if m is not model:
+            _abort_model_construction(m)
+
+
+def _abort_model_construction(model):
+    """
+    The given model was parsed successfully (by its own parser) but its
+    construction will never be finished because another model of the same
+    load failed: undo the instrumentation of the user classes done for it
+    and forget the collected attributes of its user class instances.
+    """
+    if hasattr(model, "_tx_reference_resolver") and hasattr(model, "_tx_parser"):
+        del model._tx_reference_resolver
+        model._tx_parser._restore_user_attr_methods()
+        model._tx_parser._drop_user_obj_attrs()
 
 
 class ReferenceResolver:
